@@ -1,8 +1,11 @@
 import RCE.Driver.Walk
 import RCE.Driver.Tables
+import RCE.Driver.SearchD
 
 def main (args : List String) : IO UInt32 := do
   match args with
   | ["walk"] => RCE.Driver.runWalk
   | ["tables"] => RCE.Driver.runTables
+  | ["search"] => RCE.Driver.runSearch 20
+  | ["search", n] => RCE.Driver.runSearch n.toNat!
   | _ => IO.eprintln "usage: driver walk|tables|search|uci < stream"; return 2
